@@ -181,6 +181,8 @@ def evaluate(case):
     if len(trace) < 1:
         raise Violation("trace/empty", "run recorded no entry", tags)
     for j, e in enumerate(trace):
+        if not (isinstance(e, dict) and all(k in e for k in ("iter", "alpha", "log_p_one", "tree")) and isinstance(e["tree"], dict)):
+            raise Violation("entry/malformed", "trace entry %d of %d is not a recorded state: %r" % (j, len(trace), e if not isinstance(e, dict) else sorted(e)), tags)
         try:
             t = Tree.from_dict(e["tree"])
             mt = from_tree(t)
